@@ -12,9 +12,10 @@ PROFILES = {
     "C10": dict(acquire=5, release=3, panic=1.5, closure_panic=0.45, poison=2.0, access=0.3, invalid=0.05),
     "C11": dict(acquire=5, release=2, panic=2.5, closure_panic=0.6, access=0.3, invalid=0.05),
     "C17": dict(acquire=4, release=2, fmt=5, poison=1.5, access=1, key=1),
+    "C13": dict(acquire=6, release=3, access=0.3, fmt=1.5, panic=0.5, closure_panic=0.2, poison=0.6, forget=0.1),
 }
-NTHREADS = {"C03": (1, 2), "C04": (1, 2), "C05": (1, 3), "C06": (1, 2), "C10": (1, 3), "C11": (1, 2), "C17": (1, 2)}
-PRE = {"C03": 0.1, "C04": 0.3, "C05": 0.15, "C06": 0.1, "C10": 0.05, "C11": 0.1, "C17": 0.35}
+NTHREADS = {"C03": (1, 2), "C04": (1, 2), "C05": (1, 3), "C06": (1, 2), "C10": (1, 3), "C11": (1, 2), "C17": (1, 2), "C13": (1, 3)}
+PRE = {"C03": 0.1, "C04": 0.3, "C05": 0.15, "C06": 0.1, "C10": 0.05, "C11": 0.1, "C17": 0.35, "C13": 0.4}
 COUNT = {"quick": 1500, "thorough": 25000}
 # C03 / C04 / C05 are also judged on interleaved (Level B) executions: BMonitors.v check_C03b / C04b / C05b
 BCOUNT = {"quick": 500, "thorough": 8000}
